@@ -148,7 +148,7 @@ def branchTags (s : C08Split) (a : Int × Int) (elems : Fib Int (T d)) (res : Op
   (if cs.any (fun c => c ≥ a.2 + s.post) then ["break-after"] else []) ++
   (if cs.any (fun c => (a.1 - s.pre ≤ c && c < a.1) || (a.2 ≤ c && c < a.2 + s.post)) then ["in-halo-of-active"] else []) ++
   (match res with
-   | none => ["crash:min-empty"]
+   | none => ["crash-op:" ++ opTag s.op]
    | some ps =>
      (if ps.length ≥ 2 then ["multi"] else []) ++
      (if ps.any (fun p => decide (p.lo ≠ p.start) || (match s.op with | .uniform st => decide (p.hi ≠ p.start + st) | _ => false)) then ["clipped"] else []) ++
@@ -171,10 +171,18 @@ def handleC08 (j : Json) : Except String Verdict := do
     let mj := match model with | some o => o.toJson re | none => errJson
     let sj := match spec with | some o => o.toJson re | none => errJson
     let cj := match clean with | some o => o.toJson re | none => errJson
-    let drift := if mj == cj then [] else ["drift"]
+    let drift := mj != cj
     let specOk := impl == sj && chunk
     let why := if impl == sj then (if chunk then "" else "chunks") else s!"expected {sj.compress}"
-    pure { agree := impl == mj, spec := specOk, model := mj, tags := tags ++ drift, why }
+    -- active ranges are only specified for a properly split tree: when today's descent leaves a
+    -- mixed tree, the raw tree is what is compared
+    let agree := if drift then
+        (match impl.getObjVal? "tree", mj.getObjVal? "tree" with
+         | .ok a, .ok b => a == b
+         | _, _ => impl == mj)
+      else impl == mj
+    let crash := if model.isNone then ["crash:min-empty"] else []
+    pure { agree, spec := specOk, model := mj, tags := tags ++ (if drift then ["drift"] else []) ++ crash, why }
   match k with
   | 0 =>
     let t ← fTree j "t" (d + 1)
@@ -198,8 +206,11 @@ def handleC08 (j : Json) : Except String Verdict := do
         else some (specIter s2.op s2.pre s2.post p.lo p.hi s2.rel p.elems)
       let m := obsRe act d (modelF s act dflt d) (G (fun _ => true)) t
       let sp := obsRe act d (specF s act dflt d) (G (fun _ => false)) t
+      let crashOp := match modelF s act dflt d t with
+        | none => ["crash-op:" ++ opTag s.op]
+        | some _ => if m.isNone then ["crash-op:" ++ opTag s2.op] else []
       finish (pre && s2.ok) m m sp true (["resplit", opTag s.op ++ ">" ++ opTag s2.op] ++
-        (if s.rel then ["rel-then-resplit"] else []))
+        (if s.rel then ["rel-then-resplit"] else []) ++ crashOp)
   | 1 =>
     let t ← fTree j "t" (d + 2)
     let s ← parseSplit j shape 0
@@ -212,7 +223,8 @@ def handleC08 (j : Json) : Except String Verdict := do
       | some tj, some c => if tj == c.tree then some c else some { tree := tj, uact := [], lact := [] }
       | some tj, none => some { tree := tj, uact := [], lact := [] }
     finish pre model clean (obsAt act d (specF s act dflt d) 1 t) true
-      (["depth1", opTag s.op] ++ (if presentedAt dflt d 1 t > 0 then ["some-presented"] else []))
+      (["depth1", opTag s.op] ++ (if presentedAt dflt d 1 t > 0 then ["some-presented"] else []) ++
+        (if model.isNone then ["crash-op:" ++ opTag s.op] else []))
   | 2 =>
     let t ← fTree j "t" (d + 3)
     let s ← parseSplit j shape 0
@@ -225,7 +237,8 @@ def handleC08 (j : Json) : Except String Verdict := do
       | some tj, some c => if tj == c.tree then some c else some { tree := tj, uact := [], lact := [] }
       | some tj, none => some { tree := tj, uact := [], lact := [] }
     finish pre model clean (obsAt act d (specF s act dflt d) 2 t) true
-      (["depth2", opTag s.op] ++ (if presentedAt dflt d 2 t > 0 then ["some-presented"] else []))
+      (["depth2", opTag s.op] ++ (if presentedAt dflt d 2 t > 0 then ["some-presented"] else []) ++
+        (if model.isNone then ["crash-op:" ++ opTag s.op] else []))
   | _ => throw "C08: split depth > 2 not supported by the driver"
 
 end FtDriver
